@@ -281,7 +281,7 @@ func judgeC20Sim(c streamsCase, h *streamsHist, r *runCtx) {
 		return
 	}
 	if se.onDataAfterLocalClose {
-		r.Violf("an OnData invocation started after the stream had been closed locally%s", tail())
+		r.Violf("an OnData invocation started after the stream had been closed locally (%s)%s", se.afterCloseTrace, tail())
 		return
 	}
 	if se.stream != nil && !se.closeCalled && len(se.read) != len(ce.flushed) {
